@@ -2,12 +2,12 @@ package main
 
 import (
 	"bytes"
-	"sort"
 	"context"
 	"fmt"
 	"os"
 	"os/exec"
 	"path/filepath"
+	"sort"
 	"strings"
 	"time"
 )
@@ -27,6 +27,10 @@ func (e *enc) prelude() string {
 (declare-fun ssub (Str Int Int) Str)
 (declare-fun sconcat (Str Str) Str)
 (declare-fun strlt (Str Str) Bool)
+(declare-fun sindexof (Str Str) Int)
+(declare-fun sindexfrom (Str Str Int) Int)
+(declare-fun sprefixof (Str Str) Bool)
+(declare-fun ssuffixof (Str Str) Bool)
 (declare-const emptyStr Str)
 (assert (= (slen emptyStr) 0))
 (assert (forall ((s Str)) (! (>= (slen s) 0) :pattern ((slen s)))))
@@ -189,7 +193,7 @@ func discharge(e *enc, dir string, idx int, timeoutMs int, obls []*Obl) {
 		os.WriteFile(single, []byte(e.singleQuery(o, false)), 0644)
 		type ans struct {
 			r, raw, name string
-			ms         int64
+			ms           int64
 		}
 		ch := make(chan ans, len(cfgs))
 		ctx, cancel := context.WithCancel(context.Background())
